@@ -79,12 +79,15 @@ Verdict(t) ==
          IF ~CRFree(t.x) THEN "precondition" ELSE IF t.tx # ToCR(t.x) THEN "not-the-transformation"
          ELSE IF t.b # t.a THEN "rendering-differs-beyond-line-ending-bytes" ELSE "ok"
     [] t.rel = "pad" ->
-         IF ~IsBlank(t.arg) \/ ~EndsWithEOL(t.arg) \/ (t.arg[Len(t.arg)] = CR /\ t.x # <<>> /\ t.x[1] = LF) THEN "precondition"
-         ELSE IF t.tx # t.arg \o t.x THEN "not-the-transformation"
+         \* the prefix is arg written rep times (rep > 1: hundreds of blank lines in front of a small document read with a small buffer
+         \* limit; tx is not shipped then and the repetitions must not fuse a CR with an LF)
+         IF ~IsBlank(t.arg) \/ ~EndsWithEOL(t.arg) \/ (t.arg[Len(t.arg)] = CR /\ t.x # <<>> /\ t.x[1] = LF) \/ t.rep < 1
+            \/ (t.rep > 1 /\ t.arg[Len(t.arg)] = CR /\ t.arg[1] = LF) THEN "precondition"
+         ELSE IF t.rep = 1 /\ t.tx # t.arg \o t.x THEN "not-the-transformation"
          ELSE IF Len(t.a) # Len(t.b) THEN "number-of-blocks-changed"
          ELSE IF \E k \in 1..Len(t.a) : t.a[k][1] # t.b[k][1] THEN "tree-or-source-changed"
-         ELSE IF \E k \in 1..Len(t.a) : t.b[k][2] # t.a[k][2] + Len(t.arg) \/ t.b[k][3] # t.a[k][3] + Len(t.arg) THEN "offsets-not-shifted-by-prefix"
-         ELSE IF \E k \in 1..Len(t.a) : t.b[k][4] # t.a[k][4] + LineEndings(t.arg) THEN "lines-not-shifted-by-prefix"
+         ELSE IF \E k \in 1..Len(t.a) : t.b[k][2] # t.a[k][2] + t.rep * Len(t.arg) \/ t.b[k][3] # t.a[k][3] + t.rep * Len(t.arg) THEN "offsets-not-shifted-by-prefix"
+         ELSE IF \E k \in 1..Len(t.a) : t.b[k][4] # t.a[k][4] + t.rep * LineEndings(t.arg) THEN "lines-not-shifted-by-prefix"
          ELSE "ok"
     [] t.rel = "final" ->
          IF EndsWithEOL(t.x) THEN "precondition" ELSE IF t.tx # t.x \o <<LF>> THEN "not-the-transformation"
